@@ -188,10 +188,12 @@ def edit_program(rng, rules):
     for _ in range(1 + rng.below(3)):
         k = rng.choice(derived)
         if rng.chance(1, 3) or k not in fresh or fresh[k].kind != 1:
-            new[k].sigBase = rules[k].sigBase + 1 + rng.below(3)       # signature only
+            # (steps of 10: the harness's signature is sigBase + env[SIG_OFFSET + k] with env values 0..2, and a client must
+            # never give two different definitions the same signature)
+            new[k].sigBase = rules[k].sigBase + 10 + rng.below(3)       # signature only
         else:
             r = copy.deepcopy(fresh[k])
-            r.sigBase = rules[k].sigBase + 3 + rng.below(3)
+            r.sigBase = rules[k].sigBase + 20 + rng.below(3)
             new[k] = r
     return new
 
